@@ -364,6 +364,9 @@ func (g *GeneratorBase) Generate(
 		}
 
 		if g.commonFlags.Separate {
+			if _, dup := srcMap[filename]; dup {
+				logx.Fatalf("more than one type is written to %s: %s", filename, typName)
+			}
 			srcMap[filename] = src
 		} else {
 			srcList = append(srcList, src)
